@@ -43,7 +43,7 @@ func vCrashPoint(id string) {
 	if vCrashAt == vCrashN {
 		vCrashed = id
 		vReach("crash")
-		panic(vCrash{id})
+		vCrashNow()
 	}
 }
 
